@@ -40,6 +40,8 @@ type EvmReq struct {
 	Number   uint64       `json:"number"`
 	Time     uint64       `json:"time"`
 	Gas      uint64       `json:"gas"`
+	// gas handed to the call when it is to differ from the block gas limit the GASLIMIT instruction reports
+	CallGas uint64 `json:"call_gas,omitempty"`
 }
 type EvmRes struct {
 	Err  string `json:"err"`
@@ -96,7 +98,11 @@ func runEvm(q *EvmReq) (r EvmRes) {
 	}
 	env := vm.NewEVM(ctx, st, allForks(), vcfg)
 	sender := st.GetOrNewStateObject(origin)
-	ret, _, err := env.Call(sender, common.HexToAddress(q.Callee), unhex(q.Input), q.Gas, val)
+	callGas := q.Gas
+	if q.CallGas != 0 {
+		callGas = q.CallGas
+	}
+	ret, _, err := env.Call(sender, common.HexToAddress(q.Callee), unhex(q.Input), callGas, val)
 	if err != nil {
 		switch err {
 		case vm.ErrOutOfGas, vm.ErrCodeStoreOutOfGas:
